@@ -27,6 +27,8 @@ def check(run):
     hr = inboundlib.gen(run, "rec", [1, 2], ["c1"], ["m1", "m2", "m3"], [1], 4 if not thorough else 5, qos=(1,))
     hr = [h for h in hr if sum(1 for o in h if o["op"] == "pub") >= 2 and sum(1 for o in h if o["op"] == "toggle") >= 2
           and not any(o["op"] in ("pubrel", "sweep") for o in h)]
+    if len(hr) > 2500:
+        hr = hr[:: len(hr) // 2500 + 1]
     run.log("%d fail-and-recover scripts" % len(hr))
     hs += hr
     # every third script runs "dynamic": subscriptions made after each topic was published once, one removed before a last publish
